@@ -405,7 +405,9 @@ func c05Full(t *rapid.T) {
 	var isFull bool
 	var runid string
 	var perr error
-	res := logcap.RunTree(func() { piper, nsize, isFull, runid, perr = ds.VerifSendPSyncCmd(src.Addr(), "auth", srcSentinel, false, ask) })
+	res := logcap.RunTree(func() {
+		piper, nsize, isFull, runid, perr = ds.VerifSendPSyncCmd(src.Addr(), "auth", srcSentinel, false, ask)
+	})
 	if !res.Completed || perr != nil {
 		violation(t, "C05", "full:handshake", "%s: sendPSyncCmd failed: %v err=%v", desc, res, perr)
 		return
